@@ -171,6 +171,20 @@ def networks(tier, seed):
     yield N("ode-mod-multi", [(["H", "H"], ["H2"], dict(alpha=1.0)), (["H2", "C"], ["CH", "H"], dict(alpha=2.0))],
             ode_modifier={"H2": {"factors": ["fform"], "reactants": [["H", "H"]]},
                           "CH": {"factors": ["-f3"], "reactants": [["H", "C", "H2"]]}})
+    def spellings():
+        fresh_species_state()
+        from naunet.species import Species
+        from naunet.network import Network as Net
+        def S(n, **kw):
+            return Species(n, **kw)
+        reacs = [mk_reaction([S("H"), S("e-")], [S("H+"), S("E"), S("e-")], alpha=1.0),
+                 mk_reaction([S("H+"), S("E")], [S("H")], alpha=2.0),
+                 mk_reaction([S("CO")], [S("#CO")], alpha=3.0),
+                 mk_reaction([S("GCO", surface_prefix="G")], [S("CO")], alpha=4.0),
+                 mk_reaction([S("oH2D+"), S("e-")], [S("H"), S("H"), S("D")], alpha=5.0),
+                 mk_reaction([S("H2"), S("D")], [S("HD"), S("H")], alpha=6.0)]
+        return Net(reacs)
+    yield "spellings", spellings
     rnd = random.Random(1234 + seed)
     alphabet = ["H", "H2", "C", "CH", "O", "CO", "e-", "H+", "C+", "He"]
     nrand = 6 if tier == "quick" else 40
@@ -419,6 +433,8 @@ def check_network(label, net, tier, seed, want):
                 V("C01", "fex-missing: temperature equation", backend=bname)
             elif got[tslot][0] != want_t:
                 V("C01", f"thermal-equation: emitted {got[tslot][1][:120]!r} = {got[tslot][0]} expected {want_t}", backend=bname)
+        if "C04" in want:
+            viol.extend(conservation(label, net, R, got, yv, env, bname))
         if "C03" in want:
             for (nm, i, size) in bounds:
                 V("C03", f"subscript-out-of-bounds: {nm}[{i}] with declared size {size}", backend=bname)
@@ -514,6 +530,55 @@ def check_network(label, net, tier, seed, want):
                 if a != b:
                     V("C03", f"layouts-disagree: value at {key}: {base[key][:60]!r} vs {other[key][:60]!r}", backend=nm)
     return viol
+
+
+def conservation(label, net, R, got, yv, env, bname):
+    """balanced network => weighted sums of the emitted derivatives vanish; GetElementAbund == sum count*y"""
+    out = []
+
+    def V(what):
+        out.append({"property": "C04", "network": label, "what": what, "backend": bname,
+                    "signature": f"C04:{label}:{bname}:{what.split(':')[0]}"})
+    species = R.species
+    elems = sorted({e for sp in species for e in sp.element_count})
+    comp = {i: dict(sp.element_count) for i, sp in enumerate(species)}
+    charge = {i: sp.charge for i, sp in enumerate(species)}
+
+    def total(sp_list, key):
+        if key == "charge":
+            return sum(s.charge for s in sp_list)
+        return sum(s.element_count.get(key, 0) for s in sp_list)
+    for key in elems + ["charge"]:
+        if key == "charge":
+            pass
+        balanced = all(total(r.reactants, key) == total(r.products, key) for r in net.reactions)
+        if not balanced or (net.ode_modifier or {}):
+            continue
+        tot = Fraction(0)
+        for i in range(len(species)):
+            if i in got:
+                w = charge[i] if key == "charge" else comp[i].get(key, 0)
+                tot += w * got[i][0]
+        if tot != 0:
+            V(f"not-conserved: {key}: weighted sum of emitted derivatives is {tot}")
+    # one ODE variable per chemical species irrespective of spelling
+    for i, a in enumerate(species):
+        for j in range(i + 1, len(species)):
+            if a == species[j]:
+                V(f"two-slots-one-species: {a.name} and {species[j].name}")
+    phys = R.files.get(f"src/naunet_physics.{R.ext}", R.files.get("src/naunet_physics.cpp", ""))
+    body = function_body(phys, r"double\s+GetElementAbund\s*\([^)]*\)\s*\{")
+    for m in re.finditer(r"if\s*\(elemidx == (IDX_ELEM_\w+)\)\s*\{\s*return\s+([^;]*);", strip_comments(body), flags=re.S):
+        ename = m.group(1)[len("IDX_ELEM_"):]
+        try:
+            val = ceval.value(ceval.parse_expr(m.group(2)), env)
+        except Exception as e:
+            V(f"GetElementAbund-invalid: {ename}: {e}")
+            continue
+        exp = sum(Fraction(sp.element_count.get(ename, 0)) * yv[i] for i, sp in enumerate(species))
+        if val != exp:
+            V(f"GetElementAbund-value: {ename}: emitted {val} expected {exp}")
+    return out
 
 
 def oracle_for(prop):
